@@ -623,7 +623,7 @@ def forward_objective(M, dissipator, coeffs, params, pts, rho0, tgt, n, quadrati
 
 
 def fd_oracle(spec, pts, rho0, tgt, params, derivs="frechet", h=1e-5, quadratic=False,
-              system=None):
+              system=None, layout=None):
     """returns (relative gradient error per half step, dynamics error, details);
     `quadratic`: objective 1/2 sum tgt_ij rho_ij^2 through a callable target_derivative;
     `system`: an existing (possibly already used) ParameterizedSystem built from `spec`;
@@ -636,7 +636,8 @@ def fd_oracle(spec, pts, rho0, tgt, params, derivs="frechet", h=1e-5, quadratic=
         system = make_real_system(M, dissipator, coeffs, derivs=derivs)
     r = G.state_gradient(system=system, initial_state=np.array(rho0),
                          target_derivative=(quadratic_target(tgt) if quadratic
-                                            else np.array(tgt).copy()),
+                                            else (np.asfortranarray(np.array(tgt)) if layout == "F"
+                                                  else np.array(tgt).copy())),
                          process_tensors=list(pts),
                          parameters=np.array(params), progress_type="silent")
     grad = np.array(r["gradient"])
@@ -679,7 +680,7 @@ def judge(res, key, spec, pts, rho0, tgt, params, ptdesc, derivs="frechet", syst
           history=None):
     quadratic = ":target=callable" in key
     rel, dyn_err, det = fd_oracle(spec, pts, rho0, tgt, params, derivs, quadratic=quadratic,
-                                  system=system)
+                                  system=system, layout="F" if ":target-layout=F" in key else None)
     bad = [int(k) for k in np.nonzero(rel > FD_RTOL)[0]]
     ok = True
     if bad:
@@ -694,7 +695,9 @@ def judge(res, key, spec, pts, rho0, tgt, params, ptdesc, derivs="frechet", syst
             "earlier_calls_on_the_same_system_object": history or [],
             "initial_state": _cplx(rho0),
             "target_derivative": ("callable rho -> W*rho (objective 1/2 sum W rho^2), W below"
-                                  if quadratic else "the array below"),
+                                  if quadratic else "the array below" + (
+                                      " in Fortran memory order (e.g. a transposed view)"
+                                      if ":target-layout=F" in key else "")),
             "target_array": _cplx(tgt),
             "half_steps_off": bad, "relative_error_per_half_step": [float(x) for x in rel],
             "gradient": _cplx(det["gradient"]), "finite_difference": _cplx(det["finite_difference"]),
@@ -783,6 +786,14 @@ def search(res):
     item = ("fd:random-pt:numdifftools:E=2:N=1:M=1", "random", 1, 1, "param", ([[1, 1], [1, 1]], 7))
     spec, pts, rho0, tgt, params, ptdesc = build_search_case(item)
     judge(res, item[0], spec, pts, rho0, tgt, params, ptdesc, derivs="numdiff")
+    # the target derivative in a non-C memory layout (same values): a non-symmetric complex target
+    item = ("fd:random-pt:E=1:N=2:M=1:dissipator=none:target-layout=F", "random", 2, 1, "none", ([[1, 2, 1]], 11))
+    try:
+        spec, pts, rho0, tgt, params, ptdesc = build_search_case(item)
+        tgt = np.array(tgt, dtype=complex) + np.array([[0.0, 0.7 - 0.3j], [-0.2 + 0.5j, 0.1]])
+        judge(res, item[0], spec, pts, rho0, tgt, params, ptdesc)
+    except Exception as e:      # noqa: BLE001
+        res.notes.append("search: layout case raised %r" % e)
     reuse_search(res)
     for key in MIXED_KEYS:
         mixed_search(res, key)
